@@ -2,7 +2,7 @@
    op (fields separated by '|'):
      I|T|<proto>;<proto>...|<index or N>|<0/1>      insertRule(text, index, inOrder)
      I|O|<rule>|<index or N>|<0/1>                  insertRule(ruleobject, index, inOrder)
-     D|<index>   DO|<i>   NS|<p>|<u>   ND|<p>   E|<e>   T|<proto>;...
+     D|<index>   DO|<i>   NS|<p>|<u>   ND|<p>   E|<e>   T|<item>;...   item = <proto> | S0 ('<!--'/'-->' + whitespace) | S1 (no whitespace after it)
      C|<k>|I|T|<protos>|<index or N>   C|<k>|I|O|<rule>|<index or N>   C|<k>|D|<index>   C|<k>|DO|<i>   C|<k>|T|<kind>+<kind>...
    proto / rule:  kindcode:prefix:uri:enc:n+n+...:kindcode+kindcode+...
    answer: one line, per op  <result>#<state>#<valid 0/1>#<accept_kinds of the state's kinds>  joined by ' '
@@ -42,7 +42,8 @@ let op_of s =
   | ["NS"; p; u] -> NsSet (n_of_int (int_of_string p), n_of_int (int_of_string u))
   | ["ND"; p] -> NsDel (n_of_int (int_of_string p))
   | ["E"; e] -> Enc (n_of_int (int_of_string e))
-  | ["T"; ps] -> SetText (protos_of ps)
+  | ["T"; ps] -> SetText (List.map (fun x -> if x = "S0" then TSep false else if x = "S1" then TSep true
+                                      else TStmt (proto_of x)) (split ';' ps))
   | ["C"; k; "I"; form; src; idx] -> In (nat_of_int (int_of_string k), CIns (source_of form src, index_of idx))
   | ["C"; k; "D"; idx] -> In (nat_of_int (int_of_string k), CDel (z_of_int (int_of_string idx)))
   | ["C"; k; "DO"; i] -> In (nat_of_int (int_of_string k), CDelObj (nat_of_int (int_of_string i)))
